@@ -45,6 +45,7 @@ func runC13(rc *RC) {
 	rc.Knob("world-kind", kind)
 	base := g.baseCity(true)
 	w, err := makeMutableWorld(rc, g, kind, base)
+	g.mixedAreas = true // only for features added from here on
 	if err != nil {
 		rc.Fail("HARNESS/fixture", "%v", err)
 		return
